@@ -2,6 +2,9 @@
 // PRELUDE (trusted): environment models for the IO adapters (C11) and the RustCrypto traits (C16).
 //   std::io::Read        -> trait VfRead with a ghost log (std's documented contract of `read`)
 //   std::io::Error::kind -> assumed specification (uninterpreted kind of an opaque error)
+//   std::fs::File, std::path::Path -> vf_fs::{File, Path}: ghost content, start position, log (cursor = start + |log|),
+//                           seekable, mappable; open / seek(End(d <= 0)) / rewind / stream_position / read
+//   memmap2::{Mmap, MmapOptions} -> module memmap2: view Seq<u8>, Deref<Target=[u8]>, new / len / map
 // Everything in this file is an ASSUMPTION about std / the operating system / dependencies.
 // ---------------------------------------------------------------------------------------------
 
@@ -26,14 +29,26 @@ pub open spec fn vf_is_interrupted(e: &std::io::Error) -> bool {
     vf_io_err_kind(e) == std::io::ErrorKind::Interrupted
 }
 
+// what reading never changes (see VfRead::source)
+pub ghost struct VfSource {
+    pub content: Seq<u8>,
+    pub start: int,
+    pub seekable: bool,
+    pub mappable: bool,
+}
+
 // std::io::Read. The ghost observables of a reader:
 //   log()         every byte the reader has yielded so far (through successful reads), in order
 //   eofs()        how many reads into a non-empty buffer returned Ok(0) (= "end of file" by std's contract)
 //   hard_errors() how many reads returned an error other than ErrorKind::Interrupted
 //   last_error()  the most recent error returned
-//   limit()       an upper bound, fixed for the life of the reader, on the number of bytes it ever yields
-//                 ("the source is shorter than limit() bytes"; needed because Hasher::update is specified
-//                 for inputs of fewer than 2^64 bytes in total)
+//   limit()       an upper bound, not changed by reading, on the length of the log ("the source is shorter than
+//                 limit() bytes"; needed because Hasher::update is specified for inputs of fewer than 2^64
+//                 bytes in total)
+//   inv()         the reader's own invariant, required and re-established by every read (true for a plain reader;
+//                 for a File: the log is the piece of the file content between start and cursor)
+//   source()      the object behind the reader, which reading does not change (arbitrary for a plain reader;
+//                 for a File: its content, start position, seekable, mappable)
 // `read` (std's documentation): Ok(n) => n <= buf.len(), the first n bytes of buf are the next n bytes of the
 // source, the rest of buf is unchanged; Err(_) => no bytes were read (nothing is consumed from the source).
 // Nothing is said about WHICH of the three outcomes happens, nor about n: short reads, Interrupted and hard
@@ -49,11 +64,18 @@ pub trait VfRead: Sized {
 
     spec fn limit(&self) -> nat;
 
+    spec fn inv(&self) -> bool;
+
+    spec fn source(&self) -> VfSource;
+
     fn read(&mut self, buf: &mut [u8]) -> (r: std::io::Result<usize>)
         requires
+            old(self).inv(),
             old(self).log().len() <= old(self).limit(),
         ensures
             final(buf)@.len() == old(buf)@.len(),
+            final(self).inv(),
+            final(self).source() == old(self).source(),
             final(self).limit() == old(self).limit(),
             final(self).log().len() <= final(self).limit(),
             match r {
@@ -83,4 +105,315 @@ pub trait VfRead: Sized {
                 },
             },
     ;
+}
+
+// ---- std::fs::File (and the path it is opened from) ---------------------------------------------------
+// Ghost state of an open file:
+//   content   the bytes of the file. ASSUMPTION: fixed while the file is open (no concurrent writer, no
+//             truncation), finite; for a pipe / character device: the bytes it will deliver
+//   start     the cursor position established by open (0) or by the last successful seek / rewind
+//   log       the bytes read since then (so cursor == start + |log|), eofs: the Ok(0) reads since then
+//   seekable  whether lseek works on it (false: pipes, sockets, ttys)
+//   mappable  whether mmap works on it (false: e.g. /sys, /proc files, some network file systems)
+// ASSUMPTIONS about the operating system (POSIX lseek / read / mmap on a regular file): a failed seek leaves
+// the cursor where it was; seek(End(d)) succeeds exactly with |content| + d when that is >= 0 on a seekable
+// file; read returns 0 on a non-empty buffer only at end of file and otherwise delivers the bytes at the
+// cursor; a mapping of length len shows the first len bytes of the file. Special files whose seek result
+// does not reflect what read delivers (/dev/random, /dev/zero: seek returns 0) are OUTSIDE this model.
+pub mod vf_fs {
+    use vstd::prelude::*;
+    use crate::*;
+
+    #[verifier::external_body]
+    pub struct File {
+        f: std::fs::File,
+    }
+
+    // stands for `std::path::Path` (unsized, cannot be named in Verus)
+    #[verifier::external_body]
+    pub struct Path {
+        p: std::path::PathBuf,
+    }
+
+    // the content of the file the path names, at the time it is opened
+    pub uninterp spec fn vf_path_content(p: &Path) -> Seq<u8>;
+
+    pub uninterp spec fn vf_file_content(f: &File) -> Seq<u8>;
+
+    pub uninterp spec fn vf_file_start(f: &File) -> int;
+
+    pub uninterp spec fn vf_file_log(f: &File) -> Seq<u8>;
+
+    pub uninterp spec fn vf_file_eofs(f: &File) -> nat;
+
+    pub uninterp spec fn vf_file_hard_errors(f: &File) -> nat;
+
+    pub uninterp spec fn vf_file_last_error(f: &File) -> std::io::Error;
+
+    pub uninterp spec fn vf_file_seekable(f: &File) -> bool;
+
+    pub uninterp spec fn vf_file_mappable(f: &File) -> bool;
+
+    pub open spec fn vf_file_cursor(f: &File) -> int {
+        vf_file_start(f) + vf_file_log(f).len()
+    }
+
+    // what has been read since the last positioning is the content between start and cursor; Ok(0) only at
+    // (or beyond) the end
+    pub open spec fn vf_file_inv(f: &File) -> bool {
+        &&& 0 <= vf_file_start(f)
+        &&& vf_file_cursor(f) <= vf_file_content(f).len()
+        &&& vf_file_log(f) == vf_file_content(f).subrange(vf_file_start(f), vf_file_cursor(f))
+        &&& (vf_file_eofs(f) > 0 ==> vf_file_cursor(f) == vf_file_content(f).len())
+    }
+
+    // freshly opened / rewound, nothing read yet
+    pub open spec fn vf_file_at_start(f: &File) -> bool {
+        &&& vf_file_start(f) == 0
+        &&& vf_file_log(f) == Seq::<u8>::empty()
+        &&& vf_file_eofs(f) == 0
+    }
+
+    // content, seekable, mappable never change
+    pub open spec fn vf_file_same(a: &File, b: &File) -> bool {
+        &&& vf_file_content(a) == vf_file_content(b)
+        &&& vf_file_seekable(a) == vf_file_seekable(b)
+        &&& vf_file_mappable(a) == vf_file_mappable(b)
+    }
+
+    // everything unchanged (an operation that failed)
+    pub open spec fn vf_file_unchanged(a: &File, b: &File) -> bool {
+        &&& vf_file_same(a, b)
+        &&& vf_file_start(a) == vf_file_start(b)
+        &&& vf_file_log(a) == vf_file_log(b)
+        &&& vf_file_eofs(a) == vf_file_eofs(b)
+    }
+
+    // positioned at p, nothing read since
+    pub open spec fn vf_file_positioned(a: &File, b: &File, p: int) -> bool {
+        &&& vf_file_same(a, b)
+        &&& vf_file_start(b) == p
+        &&& vf_file_log(b) == Seq::<u8>::empty()
+        &&& vf_file_eofs(b) == 0
+    }
+
+    pub open spec fn vf_seek_end_offset(pos: std::io::SeekFrom) -> int {
+        match pos {
+            std::io::SeekFrom::End(d) => d as int,
+            _ => 0,
+        }
+    }
+
+    impl File {
+        // std::fs::File::open(path)
+        #[verifier::external_body]
+        pub fn open(path: &Path) -> (r: std::io::Result<File>)
+            ensures
+                r matches Ok(f) ==> vf_file_content(&f) == vf_path_content(path) && vf_file_at_start(&f)
+                    && vf_file_inv(&f),
+        {
+            unimplemented!()
+        }
+
+        // <File as io::Seek>::seek, for the only form the crate uses: an offset <= 0 from the end
+        #[verifier::external_body]
+        pub fn seek(&mut self, pos: std::io::SeekFrom) -> (r: std::io::Result<u64>)
+            requires
+                pos matches std::io::SeekFrom::End(d) && d <= 0,
+            ensures
+                match r {
+                    Ok(p) => {
+                        &&& vf_file_seekable(old(self))
+                        &&& p == vf_file_content(old(self)).len() + vf_seek_end_offset(pos)
+                        &&& vf_file_positioned(old(self), final(self), p as int)
+                    },
+                    Err(_) => vf_file_unchanged(old(self), final(self)),
+                },
+                // lseek fails on unseekable files (ESPIPE) and for negative targets (EINVAL)
+                !vf_file_seekable(old(self)) ==> r is Err,
+                vf_file_content(old(self)).len() + vf_seek_end_offset(pos) < 0 ==> r is Err,
+        {
+            unimplemented!()
+        }
+
+        // io::Seek::rewind == seek(SeekFrom::Start(0))
+        #[verifier::external_body]
+        pub fn rewind(&mut self) -> (r: std::io::Result<()>)
+            ensures
+                match r {
+                    Ok(_) => vf_file_seekable(old(self)) && vf_file_positioned(old(self), final(self), 0),
+                    Err(_) => vf_file_unchanged(old(self), final(self)),
+                },
+                !vf_file_seekable(old(self)) ==> r is Err,
+        {
+            unimplemented!()
+        }
+
+        // io::Seek::stream_position == seek(SeekFrom::Current(0))
+        #[verifier::external_body]
+        pub fn stream_position(&mut self) -> (r: std::io::Result<u64>)
+            ensures
+                vf_file_unchanged(old(self), final(self)),
+                r matches Ok(p) ==> p == vf_file_cursor(old(self)),
+                !vf_file_seekable(old(self)) ==> r is Err,
+        {
+            unimplemented!()
+        }
+    }
+
+    // <File as io::Read> (and <&File as io::Read>: the cursor lives in the kernel, a shared reference suffices
+    // in real Rust; the model needs `&mut` to speak about the new cursor)
+    impl VfRead for File {
+        open spec fn log(&self) -> Seq<u8> {
+            vf_file_log(self)
+        }
+
+        open spec fn eofs(&self) -> nat {
+            vf_file_eofs(self)
+        }
+
+        open spec fn hard_errors(&self) -> nat {
+            vf_file_hard_errors(self)
+        }
+
+        open spec fn last_error(&self) -> std::io::Error {
+            vf_file_last_error(self)
+        }
+
+        // what can still be read plus what has been read since the last positioning
+        open spec fn limit(&self) -> nat {
+            if vf_file_content(self).len() >= vf_file_start(self) {
+                (vf_file_content(self).len() - vf_file_start(self)) as nat
+            } else {
+                0
+            }
+        }
+
+        open spec fn inv(&self) -> bool {
+            vf_file_inv(self)
+        }
+
+        open spec fn source(&self) -> VfSource {
+            VfSource {
+                content: vf_file_content(self),
+                start: vf_file_start(self),
+                seekable: vf_file_seekable(self),
+                mappable: vf_file_mappable(self),
+            }
+        }
+
+        #[verifier::external_body]
+        fn read(&mut self, buf: &mut [u8]) -> (r: std::io::Result<usize>) {
+            unimplemented!()
+        }
+    }
+}
+
+// ---- memmap2 -------------------------------------------------------------------------------------------
+pub mod memmap2 {
+    use vstd::prelude::*;
+    use crate::vf_fs::*;
+
+    #[verifier::external_body]
+    pub struct Mmap {
+        m: Vec<u8>,
+    }
+
+    impl View for Mmap {
+        type V = Seq<u8>;
+
+        uninterp spec fn view(&self) -> Seq<u8>;
+    }
+
+    impl core::ops::Deref for Mmap {
+        type Target = [u8];
+
+        #[verifier::external_body]
+        fn deref(&self) -> (r: &[u8])
+            ensures
+                r@ == self@,
+        {
+            &self.m[..]
+        }
+    }
+
+    // the builder: only the `len` option is used by the crate (offset stays 0)
+    pub struct MmapOptions {
+        pub len: Option<usize>,
+    }
+
+    impl MmapOptions {
+        pub fn new() -> (r: Self)
+            ensures
+                r.len is None,
+        {
+            MmapOptions { len: None }
+        }
+
+        pub fn len(&mut self, len: usize) -> (r: &mut Self)
+            ensures
+                r.len == Some(len),
+                *final(r) == *final(self),
+        {
+            self.len = Some(len);
+            self
+        }
+
+        // `unsafe fn map<T: MmapAsRawDesc>(&self, file: T)` for T = &File. A mapping of `len` bytes from offset 0
+        // shows the first `len` bytes of the file (bytes of the mapping beyond the end of the file are not
+        // specified: touching them faults); without `len` the whole file is mapped. Fails on unmappable files.
+        #[verifier::external_body]
+        pub fn map(&self, file: &File) -> (r: std::io::Result<Mmap>)
+            ensures
+                r matches Ok(m) ==> {
+                    &&& vf_file_mappable(file)
+                    &&& match self.len {
+                        Some(l) => m@.len() == l && (forall|i: int|
+                            0 <= i < l && i < vf_file_content(file).len() ==> #[trigger] m@[i] == vf_file_content(
+                                file,
+                            )[i]),
+                        None => m@ == vf_file_content(file),
+                    }
+                },
+                !vf_file_mappable(file) ==> r is Err,
+        {
+            unimplemented!()
+        }
+    }
+}
+
+// ---- digest::array::Array<u8, U32> (= hybrid_array::Array; also digest::Key<Hasher>, digest::Output<Hasher>) -------
+// 32 bytes. `copy_from_slice` is <[u8]>::copy_from_slice through DerefMut (panics unless the lengths agree: a
+// precondition here); `into` is `From<Array<u8, U32>> for [u8; 32]` (the same 32 bytes).
+#[derive(Clone, Copy)]
+pub struct VfArray32 {
+    pub bytes: [u8; 32],
+}
+
+impl View for VfArray32 {
+    type V = Seq<u8>;
+
+    open spec fn view(&self) -> Seq<u8> {
+        self.bytes@
+    }
+}
+
+impl VfArray32 {
+    #[verifier::external_body]
+    pub fn copy_from_slice(&mut self, src: &[u8])
+        requires
+            src@.len() == 32,
+        ensures
+            final(self)@ == src@,
+    {
+        self.bytes.copy_from_slice(src)
+    }
+
+    #[verifier::external_body]
+    pub fn into(self) -> (r: [u8; 32])
+        ensures
+            r@ == self@,
+    {
+        self.bytes
+    }
 }
